@@ -39,6 +39,83 @@ for cap in (1, 2, 4, 8):
          src=["util.c"], link=["wrap.c"], harness=["tab_find.c"], defines=["-DTAB_CAP=%d" % cap, "-DTAB_K=%d" % k],
          unwind=k + 3, functions=["janet_dict_find"], assumes=[KEYS, WFD], mutants=muts, timeout=300 if cap <= 4 else 600)
 
+
+# ------------------------------------------------------------------ (B) table.c operations against the finite-map view
+WFT = ("precondition wf_table(t): wf_dict(t->data, t->capacity) - " + WFD[len("precondition wf_dict(buckets, cap): "):] +
+       "; data a heap block of capacity buckets; count = number of LIVE buckets, deleted = number of TOMBSTONEs; 2*(count+deleted) <= capacity")
+FINDC = "janet_dict_find replaced by its contract tab_find_spec (proved of the real function by units tab.find.cap*); the replacement asserts wf_dict of its argument"
+REHC = ("janet_table_rehash replaced by its contract (proved of the real function by units tab.rehash.*): requires wf_table without the load clause, size a power of two >= count; "
+        "ensures a new exact block of size buckets without tombstones holding the same key/value map, old block released, deleted == 0, count unchanged")
+SMALLOC = "janet_smalloc / janet_sfree (scratch memory of stack-flagged tables, gc.c) modelled as malloc / free"
+T = dict(src=["table.c"], link=["wrap.c", "util.c"], link_keep={"util.c": ["janet_tablen"]}, harness=["tab_table.c"])
+KOF = {1: 2, 2: 3, 4: 4, 8: 6}          # key universe per capacity: more keys than a table under the load clause can hold (+2)
+NEWMAX = {1: 4, 2: 8, 4: 8, 8: 16}      # janet_tablen(2*count+2) for count <= cap/2
+
+def tbound(cap, extra=""):
+    return ("capacity %d: ALL well-formed tables (any mix of live, tombstone and empty buckets allowed by the load clause, i.e. up to %d entries); abstract universe of %d pairwise different keys "
+            "plus foreign keys (nil, NaN) with an arbitrary hash function; arbitrary value words; unbounded operation history (inductive invariant)%s" % (cap, cap // 2, KOF[cap], extra))
+
+PUT_M = [mut("count-not-incremented", "table.c", "            bucket->key = key;\n            bucket->value = value;\n            ++t->count;", "            bucket->key = key;\n            bucket->value = value;", "re-establishes wf_table|length grows"),
+         mut("load-check-ignores-tombstones", "table.c", "            if (NULL == bucket || 2 * (t->count + t->deleted + 1) > t->capacity) {", "            if (NULL == bucket || 2 * (t->count + 1) > t->capacity) {", "re-establishes wf_table"),
+         mut("nil-value-stored", "table.c", "    if (janet_checktype(value, JANET_NIL)) {\n        janet_table_remove(t, key);", "    if (0) {\n        janet_table_remove(t, key);", "re-establishes wf_table|removes the key"),
+         mut("nan-key-accepted", "table.c", "    if (janet_checktype(key, JANET_NUMBER) && isnan(janet_unwrap_number(key))) return;\n", "", "nil or NaN key is ignored|re-establishes wf_table")]
+REM_M = [mut("tombstone-written-as-empty", "table.c", "        bucket->key = janet_wrap_nil();\n        bucket->value = janet_wrap_false();", "        bucket->key = janet_wrap_nil();\n        bucket->value = janet_wrap_nil();", "re-establishes wf_table|other keys unchanged"),
+         mut("deleted-not-counted", "table.c", "        t->count--;\n        t->deleted++;", "        t->count--;", "re-establishes wf_table|count and deleted exact"),
+         mut("key-not-cleared", "table.c", "        bucket->key = janet_wrap_nil();\n        bucket->value = janet_wrap_false();", "        bucket->value = janet_wrap_false();", "re-establishes wf_table|view.remove")]
+RAW_M = [mut("liveness-test-flipped", "table.c", "    if (NULL != bucket && !janet_checktype(bucket->key, JANET_NIL))\n        return bucket->value;\n    else", "    if (NULL != bucket && janet_checktype(bucket->key, JANET_NIL))\n        return bucket->value;\n    else", "rawget returns view")]
+GET_F = "t = t->proto, --i) {\n        JanetKV *bucket = janet_table_find(t, key);\n        if (NULL != bucket && !janet_checktype(bucket->key, JANET_NIL))\n            return bucket->value;"
+GET_M = [mut("no-prototype-fallback", "table.c", GET_F, GET_F.replace("t = t->proto, --i", "t = NULL, --i"), "first table along the prototype chain"),
+         mut("free-bucket-ends-lookup", "table.c", GET_F, GET_F.replace("if (NULL != bucket && !janet_checktype(bucket->key, JANET_NIL))", "if (NULL != bucket)"), "first table along the prototype chain")]
+CLR_M = [mut("deleted-not-reset", "table.c", "    t->count = 0;\n    t->deleted = 0;\n", "    t->count = 0;\n", "re-establishes wf_table|no tombstones"),
+         mut("clears-count-buckets-only", "table.c", "janet_memempty(data, capacity);", "janet_memempty(data, t->count);", "re-establishes wf_table|every bucket EMPTY|empty map")]
+RH_M = [mut("deleted-not-reset", "table.c", "    t->deleted = 0;\n    for (int32_t i = 0; i < oldcapacity; i++) {", "    for (int32_t i = 0; i < oldcapacity; i++) {", "deleted == 0"),
+        mut("walks-new-capacity", "table.c", "for (int32_t i = 0; i < oldcapacity; i++) {", "for (int32_t i = 0; i < size; i++) {", "pointer_dereference|preserves the view|count unchanged"),
+        mut("value-not-copied", "table.c", "            *newkv = *kv;", "            newkv->key = kv->key;", "preserves the view|wf_dict")]
+
+for cap in (1, 2, 4, 8):
+    tier = "quick" if cap <= 4 else "thorough"
+    to = 300 if cap <= 4 else 600
+    k = KOF[cap]
+    D = ["-DTAB_CAP=%d" % cap, "-DTAB_K=%d" % k, "-DTAB_NEWMAX=%d" % NEWMAX[cap]]
+    uw = max(NEWMAX[cap], k + 1) + 2
+    unit("tab.put.cap%d" % cap,
+         "janet_table_put from EVERY well-formed table: view' = view[key -> value] (a nil value removes the key, nil and NaN keys are ignored), every other key unchanged, "
+         "count and deleted exact, wf_table re-established (probe paths, load), prototype never touched",
+         "h_table_put", tier=tier, timeout=to, bound=tbound(cap), defines=D, unwind=uw, functions=["janet_table_put", "janet_table_remove", "janet_table_find"],
+         replace_calls=["janet_table_rehash:tab_rehash_contract"], assumes=[KEYS, WFT, FINDC, REHC], mutants=PUT_M, **T)
+    unit("tab.remove.cap%d" % cap,
+         "janet_table_remove from EVERY well-formed table: returns the value the key had, view' = view.remove(key), every other key unchanged, count and deleted exact, "
+         "wf_table re-established (the tombstone keeps every probe path intact), prototype never touched",
+         "h_table_remove", tier=tier, timeout=to, bound=tbound(cap), defines=D, unwind=uw, functions=["janet_table_remove", "janet_table_find"],
+         assumes=[KEYS, WFT, FINDC], mutants=REM_M if cap >= 2 else REM_M[:0] + [], **T)
+    unit("tab.rawget.cap%d" % cap,
+         "janet_table_rawget from EVERY well-formed table: returns view(key) - the value last put, nil for an absent, removed, nil or NaN key; table unchanged; prototype never consulted",
+         "h_table_rawget", tier=tier, timeout=to, bound=tbound(cap), defines=D, unwind=uw, functions=["janet_table_rawget", "janet_table_find"],
+         assumes=[KEYS, WFT, FINDC], mutants=RAW_M, **T)
+    unit("tab.clear.cap%d" % cap,
+         "janet_table_clear from EVERY well-formed table: view' is the empty map, length 0, no tombstones, every bucket EMPTY, block / capacity / prototype kept, wf_table re-established",
+         "h_table_clear", tier=tier, timeout=to, bound=tbound(cap), defines=D, unwind=uw, functions=["janet_table_clear", "janet_memempty"],
+         assumes=[KEYS, WFT], mutants=CLR_M, **T)
+    # rehash: load clause dropped, so up to cap live keys
+    kr = min(cap, 5) + 1
+    Dr = ["-DTAB_CAP=%d" % cap, "-DTAB_K=%d" % kr, "-DTAB_NEWMAX=%d" % NEWMAX[cap]]
+    unit("tab.rehash.cap%d" % cap,
+         "janet_table_rehash under its contract, from EVERY table that is well-formed up to the load clause and every new size that is a power of two >= count: new exact block without tombstones, "
+         "old block released, same key/value map, count unchanged, deleted == 0, wf_dict (distinct keys, probe paths) on the new block",
+         "h_table_rehash", tier=tier, timeout=to,
+         bound="old capacity %d (any mix of live / tombstone / empty buckets, up to %d live keys), new size any power of two in [count, %d]; abstract universe of %d keys with an arbitrary hash function; both allocation flavours (heap, scratch)" % (cap, min(cap, kr), NEWMAX[cap], kr),
+         defines=Dr, unwind=max(NEWMAX[cap], kr + 1) + 2, functions=["janet_table_rehash", "janet_table_find", "janet_memalloc_empty_local"],
+         assumes=[KEYS, WFT.replace("; 2*(count+deleted) <= capacity", " (load clause not required)"), FINDC, SMALLOC], mutants=RH_M if cap >= 2 else RH_M[:1], **T)
+
+for cap, pcap, chain, tier in ((2, 2, 3, "quick"), (4, 2, 3, "quick"), (8, 4, 3, "thorough")):
+    k = KOF[cap]
+    unit("tab.get.cap%d" % cap,
+         "janet_table_get: returns the value of the first table along the prototype chain whose map holds the key (the table's own entry wins), nil if none does or for a nil / NaN key; nothing modified",
+         "h_table_get", tier=tier, timeout=300 if tier == "quick" else 600,
+         bound=tbound(cap, "; acyclic prototype chains of 1..%d tables, prototypes of capacity %d (the depth cut-off JANET_MAX_PROTO_DEPTH = 200 is not reached)" % (chain, pcap)),
+         defines=["-DTAB_CAP=%d" % cap, "-DTAB_K=%d" % k, "-DTAB_PCAP=%d" % pcap, "-DTAB_CHAIN=%d" % chain], unwind=max(cap, k + 1) + 2,
+         functions=["janet_table_get", "janet_table_find"], assumes=[KEYS, WFT, FINDC], mutants=GET_M, **T)
+
 json.dump({"defaults": {"props": ["C04"], "mode": "plain", "timeout": 300, "checks": CHECKS}, "units": units},
           open(os.path.join(V, "units", "C04_tab.json"), "w"), indent=1)
 print(len(units), "units")
